@@ -2332,7 +2332,7 @@ class sptensor:
                 self.subs = np.concatenate(
                     (
                         self.subs,
-                        np.ones(
+                        np.zeros(
                             (self.subs.shape[0], grow_size),
                             dtype=int,
                         ),
